@@ -21,6 +21,12 @@
 // The role tree is built by unmarshalling generated YAML with the package's own
 // unmarshallers; the root is attached to a real workflow.ParentAdapter through
 // the build-tag hook workflow.VerifC14SetParent (= the unexported setParent).
+//
+// Second form, five elements (style env tree tmpl ops): the template may contain
+// iterators, is LOADED with the real ProcessTemplates, and a history of runtime
+// writes (SetRuntimeVar, SetGlobalRuntimeVar, DeleteRuntimeVar,
+// DeleteGlobalRuntimeVar) runs on roles of the loaded tree before the same
+// observation is taken at every role — see writes.go / genwrites.go.
 package c14
 
 import (
@@ -442,10 +448,50 @@ func taskProbes(r workflow.Role, tmpl *sx.Node, keys []string) (*sx.Node, error)
 	return sx.L(cmd, props), nil
 }
 
+// observe records everything the harness looks at on ONE role; t is the role's
+// description in the input (kind, …, iterator locals for the stage probes).
+func observe(r workflow.Role, t *sx.Node, tmpl *sx.Node, keys []string) (*sx.Node, error) {
+	ro := sx.L()
+	if st, err := r.ConsolidatedVarStack(); err != nil {
+		ro.Add(sx.L(sx.A("err")))
+	} else {
+		ro.Add(dumpMap(st))
+	}
+	if fs, err := gera.FlattenStack(r.GetDefaults(), r.GetVars(), r.GetUserVars()); err != nil {
+		ro.Add(sx.L(sx.A("err")))
+	} else {
+		ro.Add(dumpMap(fs))
+	}
+	if d, v, u, err := r.ConsolidatedVarMaps(); err != nil {
+		ro.Add(sx.L(sx.A("err")))
+	} else {
+		ro.Add(sx.L(dumpMap(d), dumpMap(v), dumpMap(u)))
+	}
+	ro.Add(sx.L(getAll(r.GetDefaults(), keys), getAll(r.GetVars(), keys), getAll(r.GetUserVars(), keys)))
+	sp, err := stageProbes(r, kvMap(t.At(4)), keys)
+	if err != nil {
+		return nil, err
+	}
+	ro.Add(sp)
+	if t.At(0).Str() == "T" && tmpl.Len() == 2 {
+		tp, err := taskProbes(r, tmpl, keys)
+		if err != nil {
+			return nil, err
+		}
+		ro.Add(tp)
+	} else {
+		ro.Add(sx.L())
+	}
+	return ro, nil
+}
+
 func runImpl(input string) (string, error) {
 	in, err := sx.Parse(input)
 	if err != nil {
 		return "", err
+	}
+	if in.IsList && in.Len() == 5 {
+		return runWrites(in) // loaded tree + runtime writes, see writes.go
 	}
 	if !validInput(in) {
 		return "", fmt.Errorf("malformed input")
@@ -463,36 +509,9 @@ func runImpl(input string) (string, error) {
 	obs := sx.L()
 	var walk func(r workflow.Role, t *sx.Node) error
 	walk = func(r workflow.Role, t *sx.Node) error {
-		ro := sx.L()
-		if st, err := r.ConsolidatedVarStack(); err != nil {
-			ro.Add(sx.L(sx.A("err")))
-		} else {
-			ro.Add(dumpMap(st))
-		}
-		if fs, err := gera.FlattenStack(r.GetDefaults(), r.GetVars(), r.GetUserVars()); err != nil {
-			ro.Add(sx.L(sx.A("err")))
-		} else {
-			ro.Add(dumpMap(fs))
-		}
-		if d, v, u, err := r.ConsolidatedVarMaps(); err != nil {
-			ro.Add(sx.L(sx.A("err")))
-		} else {
-			ro.Add(sx.L(dumpMap(d), dumpMap(v), dumpMap(u)))
-		}
-		ro.Add(sx.L(getAll(r.GetDefaults(), keys), getAll(r.GetVars(), keys), getAll(r.GetUserVars(), keys)))
-		sp, err := stageProbes(r, kvMap(t.At(4)), keys)
+		ro, err := observe(r, t, in.At(3), keys)
 		if err != nil {
 			return err
-		}
-		ro.Add(sp)
-		if t.At(0).Str() == "T" && in.At(3).Len() == 2 {
-			tp, err := taskProbes(r, in.At(3), keys)
-			if err != nil {
-				return err
-			}
-			ro.Add(tp)
-		} else {
-			ro.Add(sx.L())
 		}
 		obs.Add(ro)
 		for i, c := range r.GetRoles() {
